@@ -175,8 +175,11 @@ func detBLS(seed uint64, i int) blscommon.SecretKey {
 	}
 }
 
+// rkey: the monitors' bookkeeping key of (operator, task). The task contract is identified by its
+// ADDRESS, not by the spelling a message used for it (dom_avs_spelling.go): every hex spelling of one
+// address maps to one key, so "once per operator and task" and the statistics are judged across spellings.
 func rkey(op, taskAddr string, id uint64) string {
-	return op + "|" + taskAddr + "|" + strconv.FormatUint(id, 10)
+	return op + "|" + canonTask(taskAddr) + "|" + strconv.FormatUint(id, 10)
 }
 
 // ---------- canonical rendering of the real state
@@ -562,6 +565,7 @@ func indexOf(l []string, x string) int {
 }
 
 type avsSub struct {
+	viaMsg             bool // always through the MsgSubmitTaskResult surface (re-spelled task addresses)
 	from, op, taskAddr string
 	id                 uint64
 	stage              string
@@ -610,6 +614,13 @@ func (h *avsH) doSubmit(s avsSub) string {
 	info := &avstypes.TaskResultInfo{OperatorAddress: s.op, TaskResponseHash: s.hash, TaskResponse: s.resp, BlsSignature: s.sig,
 		TaskContractAddress: s.taskAddr, TaskId: s.id, Stage: s.stage}
 	viaMsg := h.rng.Chance(1, 3) // the MsgSubmitTaskResult surface (msg_server.go) instead of the bare keeper call
+	if s.viaMsg {
+		viaMsg = true
+	}
+	// the task this submission is about, found by ADDRESS in the real task store (not through GetTaskInfo and
+	// not by the spelling of the message): what the accept-side clauses are judged against
+	byAddr, byAddrOk := h.findTask(s.taskAddr, s.id)
+	spell := spellingOf(s.taskAddr)
 	err := h.c.CachedDo(func(ctx sdk.Context) error {
 		if viaMsg {
 			_, e := avskeeper.NewMsgServerImpl(h.c.App.AVSManagerKeeper).SubmitTaskResult(sdk.WrapSDKContext(ctx),
@@ -629,6 +640,12 @@ func (h *avsH) doSubmit(s avsSub) string {
 	h.op(fmt.Sprintf("avs.submit %s %s %s %d %s %s %s %s %s %d %s", s.from, s.op, wStr(s.taskAddr), s.id, wStr(s.stage), wBytes(s.sig), wBytes(s.resp),
 		wStr(s.hash), respID, blsOk, digest.String()), code+"|"+rec)
 	h.env.Outcome("submit." + s.stage + "." + code)
+	if spell != "eip55" && spell != "not-hex" {
+		h.env.Outcome("submit.spelling." + spell + "." + s.stage + "." + code)
+		if byAddrOk {
+			h.env.DistinctKey(fmt.Sprintf("spelling-%s-%s-%s", spell, s.stage, code))
+		}
+	}
 	k := rkey(s.op, s.taskAddr, s.id)
 	if s.stage == avstypes.TwoPhaseCommitTwo && s.resp != nil {
 		// which byte-level class of response reached which decision (dom_avs_encodings.go)
@@ -656,9 +673,24 @@ func (h *avsH) doSubmit(s avsSub) string {
 	if !hasPk {
 		bad("submit-no-bls-key", "result accepted from an operator without a registered BLS key")
 	}
-	if terr != nil || !curOk {
+	if !byAddrOk {
 		bad("submit-no-task", "result accepted for a task that does not exist")
 		return code
+	}
+	if s.taskAddr != byAddr.TaskContractAddress {
+		// not a violation by itself (an implementation may canonicalise what it stores): the once-only clause,
+		// the stored-results monitor and the statistics monitor below are keyed by address and decide
+		h.env.Note("submit.accepted-under-other-spelling." + spell)
+	}
+	if terr != nil || !curOk {
+		// judge the windows on the task found by address
+		task = &byAddr
+		a := h.c.App.AVSManagerKeeper.GetAVSInfoByTaskAddress(h.c.Ctx, byAddr.TaskContractAddress)
+		cur, curOk = h.curEpoch(a.EpochIdentifier)
+		if !curOk {
+			bad("submit-no-task", "result accepted for a task whose AVS has no epoch")
+			return code
+		}
 	}
 	end1 := int64(task.StartingEpoch) + int64(task.TaskResponsePeriod)
 	end2 := end1 + int64(task.TaskStatisticalPeriod)
@@ -1219,6 +1251,12 @@ func (h *avsH) genSubmit() {
 			s.resp = respJSON(id, 999) // a different answer than the one committed to
 		}
 	}
+	// one submission in six names the task contract in another spelling of the same address
+	// (dom_avs_spelling.go); these go through the message server, the surface that carries raw strings
+	if r.Chance(1, 6) {
+		s.taskAddr = h.respell(s.taskAddr)
+		s.viaMsg = true
+	}
 	h.doSubmit(s)
 }
 
@@ -1359,6 +1397,11 @@ func (h *avsH) sweepHistory(resp, stat, chal uint64) {
 			sig := h.signResp(o, respB)
 			// operator oi commits in epoch offset (oi mod (resp+2)) so that some are early, some on the
 			// last admissible epoch and some too late
+			// the same operator and task under another spelling of the contract address (dom_avs_spelling.go):
+			// before its own commitment (pre-empting it) and after it (a repeat): at every epoch offset
+			if _, did := h.acc1[k]; r.Chance(1, 3) && (did || e >= oi%int(resp+2)) {
+				h.doSubmit(avsSub{viaMsg: true, from: o, op: o, taskAddr: h.respell(ta), id: id, stage: "1", sig: sig})
+			}
 			if _, did := h.acc1[k]; !did && e >= oi%int(resp+2) {
 				h.doSubmit(avsSub{from: o, op: o, taskAddr: ta, id: id, stage: "1", sig: sig})
 			} else if r.Chance(1, 3) {
@@ -1369,6 +1412,9 @@ func (h *avsH) sweepHistory(resp, stat, chal uint64) {
 					if r.Chance(1, 3) { // the same content in other bytes: must be refused at every epoch offset
 						alt := encResp(id, strconv.Itoa(100+oi), enc+1+r.Intn(len(avsEncodings)-1))
 						h.doSubmit(avsSub{from: o, op: o, taskAddr: ta, id: id, stage: "2", sig: sig, resp: alt, hash: crypto.Keccak256Hash(alt).String()})
+					}
+					if r.Chance(1, 4) { // the reveal under another spelling of the contract address
+						h.doSubmit(avsSub{viaMsg: true, from: o, op: o, taskAddr: h.respell(ta), id: id, stage: "2", sig: sig, resp: respB, hash: crypto.Keccak256Hash(respB).String()})
 					}
 					h.doSubmit(avsSub{from: o, op: o, taskAddr: ta, id: id, stage: "2", sig: sig, resp: respB, hash: crypto.Keccak256Hash(respB).String()})
 				}
@@ -1510,7 +1556,7 @@ func domAvs(env *Env) error {
 		}
 	}
 	if directed == 1 {
-		for i, f := range []func(){h.directedEmptySig, h.directedLegacyNilSig, h.directedChallengeHash, h.directedOutsider, h.directedMinWrap, h.directedFractionBelowMin, h.directedEncodings} {
+		for i, f := range []func(){h.directedEmptySig, h.directedLegacyNilSig, h.directedChallengeHash, h.directedOutsider, h.directedMinWrap, h.directedFractionBelowMin, h.directedEncodings, h.directedSpellings} {
 			h.start(env, env.Report.Seed*1000+900+uint64(i), 2, rng)
 			f()
 			finish("directed", i)
